@@ -62,6 +62,7 @@ func TestC05(t *testing.T) {
 		wo := sim.DefaultOpts()
 		wo.Multisig = true
 		h := newHistory(t, wo, authProfile(), sim.BlockOpts{MaxTxs: 10, Absences: true, Evidence: true})
+		defer queryLoad(t, h, 0)()
 		prev := sim.Flatten(&h.G.V.Exp)
 		prevExp := h.G.V.Exp
 		authorized := map[string]bool{} // addresses that authorized something in the current block
